@@ -584,6 +584,12 @@ FIXED = [
     ("nested-subconflict-abstract", "{ n { b { x: id } } n { b { x: t } ... on Ob { b { x: a } } } }", {}),
     ("nested-subconflict-type", "{ u { ... on Ob { b { x: a } } ... on Other { b { x: id } } } }", {}),
     ("nested-subconflict-two", "{ b { x: id b { y: id } } b { x: a b { y: a } } }", {}),
+    # seeded C05-3 (missed at /repo 6013951: its recorded signature was another seed's): list literals one of which is a strict
+    # prefix of the other are DIFFERENT arguments (`_same_value` must not zip without a length check)
+    ("prefix-list-empty-vs-one", "{ a(l: []) a(l: [1]) }", {}),
+    ("prefix-list-one-vs-two", "{ a(l: [1, 2]) a(l: [1]) }", {}),
+    ("prefix-list-nested-fragment", "{ b { a(l: [3]) ...PL } } fragment PL on Ob { a(l: [3, 4]) }", {}),
+    ("prefix-list-variables", "query($p: Int, $q: Int){ a(l: [$p]) a(l: [$p, $q]) }", {"p": 1, "q": 2}),
     ("null-literal-vs-default", "{ lim lim(limit: null) }", {}),
     ("null-literal-vs-default-reversed", "{ lim(limit: null) lim }", {}),
     ("null-literal-vs-default-object", "{ lim(o: null) lim }", {}),
